@@ -457,7 +457,9 @@ pub fn run_c11(cx: &Ctx) -> i32 {
         texts.push(format!("a{}", c));
         texts.push(format!("{}a", c));
     }
-    let templates: Vec<&str> = vec!["x", "$0", "$1", "${g1}", "$$", "<$0|$1>", "", "$é", "[$π]"];
+    // literal runs of multi-byte characters before, between and after references (a template is cut into
+    // literal runs and references: byte and character offsets must not be confused)
+    let templates: Vec<&str> = vec!["x", "$0", "$1", "${g1}", "$$", "<$0|$1>", "", "$é", "[$π]", "é$0", "€😀$1é${g1}€", "aé$$€"];
     let tallies = par::run_workers(32, |_w, claimer| {
         engine::quiet_panics();
         engine::set_sweep_horizons(40_000, 5_000);
@@ -517,6 +519,10 @@ pub fn run_c11(cx: &Ctx) -> i32 {
                 for n in [0usize, 1, 2, 3, usize::MAX, 1usize << 59] {
                     for tpl in &templates {
                         if n > 3 && *tpl != "x" && *tpl != "$0" {
+                            continue;
+                        }
+                        // the multi-byte literal-run templates: all matches and the first match only
+                        if n > 1 && tpl.len() > 2 && !tpl.is_ascii() && !tpl.starts_with('[') {
                             continue;
                         }
                         t.evaluations += 1;
